@@ -419,3 +419,83 @@ func WalkOnce(g graph.Graph, s Sel) Result {
 	in.walk(g.Root, nil, in.enter(&s, nil))
 	return res
 }
+
+// ---------------------------------------------------------------------------------------
+// selector-driven transform
+
+// TransformResult is the reference outcome of a walking transform with function f.
+type TransformResult struct {
+	Relinked  val.V   // the property's semantics: changed blocks stored, parents re-linked
+	NewBlocks []val.V // blocks the relinked result refers to (transformed content)
+	Inlined   val.V   // the same tree with every crossed block inlined in place of its link
+	Crossed   bool    // some link was crossed
+	Targets   []Visit // (path, value) handed to f, in order
+}
+
+type xform struct {
+	in  *interp
+	f   func(val.V) val.V
+	res *TransformResult
+}
+
+// Transform replaces, top-down, every node at which some active clause is a matcher by
+// f(node) and does not descend below a replaced node.
+func Transform(g graph.Graph, s Sel, f func(val.V) val.V) TransformResult {
+	var res TransformResult
+	var dummy Result
+	in := &interp{store: g.Store(), res: &dummy}
+	x := &xform{in: in, f: f, res: &res}
+	res.Relinked, res.Inlined = x.walk(g.Root, nil, in.enter(&s, nil))
+	return res
+}
+
+func (x *xform) walk(node val.V, path []string, threads []thread) (val.V, val.V) {
+	for _, t := range threads {
+		if t.c.K == "match" {
+			x.res.Targets = append(x.res.Targets, Visit{Path: join(path), Reason: "m", Value: node})
+			r := x.f(node)
+			return r, r
+		}
+	}
+	if node.K != val.Map && node.K != val.List {
+		return node, node
+	}
+	rel := val.V{K: node.K}
+	inl := val.V{K: node.K}
+	for _, e := range graph.Children(node) {
+		child := e.V
+		var next []thread
+		for _, t := range threads {
+			// a clause only continues into children it is interested in
+			next = append(next, x.in.step(t, node, e.K, child)...)
+		}
+		cr, ci := child, child
+		if len(next) > 0 {
+			cp := append(append([]string{}, path...), e.K)
+			if child.K == val.Link {
+				if b, ok := x.in.store[child.S]; ok {
+					x.res.Crossed = true
+					br, bi := x.walk(b, cp, next)
+					x.res.NewBlocks = append(x.res.NewBlocks, br)
+					cr, ci = val.MkLink(graph.CidOf(br)), bi
+				}
+			} else {
+				cr, ci = x.walk(child, cp, next)
+			}
+		}
+		if node.K == val.Map {
+			rel.Ents = append(rel.Ents, val.Ent{K: e.K, V: cr})
+			inl.Ents = append(inl.Ents, val.Ent{K: e.K, V: ci})
+		} else {
+			rel.Items = append(rel.Items, cr)
+			inl.Items = append(inl.Items, ci)
+		}
+	}
+	if rel.K == val.Map && rel.Ents == nil {
+		rel.Ents, inl.Ents = []val.Ent{}, []val.Ent{}
+	}
+	if rel.K == val.List && rel.Items == nil {
+		rel.Items, inl.Items = []val.V{}, []val.V{}
+	}
+	return rel, inl
+}
